@@ -543,3 +543,134 @@ func ruleC04SideByFirstPart(c *Ctx) {
 	bad := lost != "" && reads != ""
 	c.Check(!bad, "c04.side-by-first-part", "extractColumnsFromExpr+extractJoinColumns", c.P.Pos(prod.Pos()), fmt.Sprintf("%d deciding return(s); part returned = part decided on: %v; callers read the part: %v", decided, lost == "", reads != ""), reads+"; "+lost+": a column `a.k.id` is decided by `k`, belongs to neither side, and both catalogs are keyed by the same column")
 }
+
+// ---------------------------------------------------------------------------------------------------------------------
+// c16.accounting/scan-on-every-success — the scan of the argument-use marks is the only thing that turns a surplus argument
+// into an error. Round 11 (two cooperating edits): the lexer counts the placeholders it emits, and Sanitize returns early
+// when that count equals len(args) — occurrences, not distinct placeholders: `$1 … $1` with two arguments is accepted.
+func init() { register("C16", ruleC16ScanOnEverySuccess) }
+
+func ruleC16ScanOnEverySuccess(c *Ctx) {
+	c.Doc("c16.accounting/scan-on-every-success", "(*Command).Sanitize: every return that hands out text (a nil error) is dominated by the loop over the argument-use marks: no shortcut answers before the unused-argument scan has run")
+	f := c.P.Method(sanitizePath, "Command", "Sanitize")
+	if f == nil {
+		c.Unknown("c16.accounting/scan-on-every-success", "(*Command).Sanitize", "-", "anchor lost")
+		return
+	}
+	var scan *ssa.BasicBlock
+	for _, l := range rangeLoops(f) {
+		if shortType(l.over.Type()) == "[]bool" {
+			scan = l.header
+		}
+	}
+	if scan == nil {
+		// the scan as a library call: slices.Index(argUse, false) / slices.Contains / slices.IndexFunc
+		allInstrs(f, func(b *ssa.BasicBlock, in ssa.Instruction) {
+			call, ok := in.(*ssa.Call)
+			if !ok || len(call.Common().Args) == 0 || shortType(call.Common().Args[0].Type()) != "[]bool" {
+				return
+			}
+			sc := call.Common().StaticCallee()
+			if sc == nil {
+				return
+			}
+			if o := sc.Origin(); o != nil {
+				sc = o
+			}
+			if sc.Pkg != nil && sc.Pkg.Pkg.Path() == "slices" && (sc.Name() == "Index" || sc.Name() == "Contains" || sc.Name() == "IndexFunc" || sc.Name() == "ContainsFunc") {
+				scan = b
+			}
+		})
+	}
+	if scan == nil {
+		c.Unknown("c16.accounting/scan-on-every-success", "(*Command).Sanitize", c.P.Pos(f.Pos()), "anchor lost: no loop over the argument-use marks")
+		return
+	}
+	n := 0
+	var why []string
+	allInstrs(f, func(b *ssa.BasicBlock, in ssa.Instruction) {
+		ret, ok := in.(*ssa.Return)
+		if !ok || len(ret.Results) != 2 {
+			return
+		}
+		if cst, isC := ret.Results[1].(*ssa.Const); !isC || cst.Value != nil {
+			return
+		}
+		n++
+		if scan != b && !scan.Dominates(b) {
+			why = append(why, "the success return at "+c.P.Pos(ret.Pos())+" is reached without the scan for unused arguments: a surplus argument is accepted silently")
+		}
+	})
+	if n == 0 {
+		c.Unknown("c16.accounting/scan-on-every-success", "(*Command).Sanitize", c.P.Pos(f.Pos()), "no success return found")
+		return
+	}
+	c.Check(len(why) == 0, "c16.accounting/scan-on-every-success", "(*Command).Sanitize", c.P.Pos(f.Pos()), fmt.Sprintf("%d success return(s), each behind the unused-argument scan", n), strings.Join(why, "; "))
+}
+
+// ---------------------------------------------------------------------------------------------------------------------
+// c17.rewriter-errors-are-the-locator's — FixIdiomaticArray only re-spells what the bracket locator found: the one failure
+// it knows is the locator's. Round 11: an added "unclosed bracket" validation (`index[1]-index[0] <= 1`) refuses the empty
+// list `[]`, which must mean ARRAY().
+func init() { register("C17", ruleC17RewriterErrors) }
+
+func ruleC17RewriterErrors(c *Ctx) {
+	c.Doc("c17.rewriter-errors", "FixIdiomaticArray: every error it returns is the error the bracket locator (FindArrayIndex) returned — the rewriter has no refusals of its own: any pair of brackets the locator reports, the empty list `[]` included, is re-spelled")
+	f := c.P.Func(modPath, "FixIdiomaticArray")
+	if f == nil {
+		c.Unknown("c17.rewriter-errors", "FixIdiomaticArray", "-", "anchor lost")
+		return
+	}
+	c.Fn("FixIdiomaticArray")
+	n := 0
+	var why []string
+	var fromLocator func(v ssa.Value, depth int) bool
+	fromLocator = func(v ssa.Value, depth int) bool {
+		if depth > 6 {
+			return false
+		}
+		switch x := v.(type) {
+		case *ssa.Extract:
+			if call, ok := x.Tuple.(*ssa.Call); ok {
+				if sc := call.Common().StaticCallee(); sc != nil && strings.HasPrefix(funcPkgPath(sc), modPath) && (fnShort(sc) == "FindArrayIndex" || isUnknownHelper(sc)) {
+					return true
+				}
+			}
+		case *ssa.Phi:
+			for _, e := range x.Edges {
+				if !fromLocator(e, depth+1) {
+					return false
+				}
+			}
+			return len(x.Edges) > 0
+		case *ssa.UnOp:
+			if a, ok := x.X.(*ssa.Alloc); ok {
+				sts := storesTo(a)
+				for _, st := range sts {
+					if cst, isC := st.Val.(*ssa.Const); isC && cst.Value == nil {
+						continue
+					}
+					if !fromLocator(st.Val, depth+1) {
+						return false
+					}
+				}
+				return len(sts) > 0
+			}
+		}
+		return false
+	}
+	allInstrs(f, func(_ *ssa.BasicBlock, in ssa.Instruction) {
+		ret, ok := in.(*ssa.Return)
+		if !ok || len(ret.Results) != 2 {
+			return
+		}
+		if cst, isC := ret.Results[1].(*ssa.Const); isC && cst.Value == nil {
+			return
+		}
+		n++
+		if !fromLocator(ret.Results[1], 0) {
+			why = append(why, "the error returned at "+c.P.Pos(ret.Pos())+" is made by the rewriter itself: a bracket pair the locator reported is refused (`[]` must mean ARRAY())")
+		}
+	})
+	c.Check(len(why) == 0, "c17.rewriter-errors", "FixIdiomaticArray", c.P.Pos(f.Pos()), fmt.Sprintf("%d failing return(s), each forwarding the locator's error", n), strings.Join(why, "; "))
+}
